@@ -1,4 +1,5 @@
 import Thanos.Model.CachingBucket
+import Thanos.Model.CachingBucketOps
 import Thanos.Lemmas.CachingBucket
 import Thanos.Generated.Facts
 /-
@@ -239,6 +240,130 @@ theorem C14_history (obj : Bytes) (S maxSub : Nat) (hS : S ≥ 1) :
       · exact hst e h
     simp only [runHistory, List.map_cons, hout]
     rw [C14_history obj S maxSub hS rest _ he' h4]
+
+/-! ### full reads, existence, attributes, listings -/
+
+/-- the per-verb cache entries are honest: they say what the wrapped bucket says -/
+structure OpsHonest (obj : Option Bytes) (listing : List Nat) (c : OpsCache) : Prop where
+  content : ∀ b, c.content = some b → obj = some b
+  exist : ∀ e, c.exist = some e → e = obj.isSome
+  attrs : ∀ n, c.attrs = some n → ∃ b, obj = some b ∧ n = b.length
+  iter : ∀ l, c.iter = some l → l = listing
+
+theorem opsHonest_empty (obj : Option Bytes) (listing : List Nat) : OpsHonest obj listing .empty :=
+  ⟨by simp [OpsCache.empty], by simp [OpsCache.empty], by simp [OpsCache.empty], by simp [OpsCache.empty]⟩
+
+/-- Get through the caching bucket = Get on the wrapped bucket (present or absent object, any way
+    of consuming the reader, any size limit, whatever the cache returns of its entries), and the
+    cache stays honest. -/
+theorem C14_get (obj : Option Bytes) (listing : List Nat) (maxSize : Nat) (mode : ReadMode)
+    (seeContent seeExist : Bool) (c : OpsCache) (h : OpsHonest obj listing c) :
+    (opGet obj maxSize mode seeContent seeExist c).ans = bucketGet obj mode ∧
+    OpsHonest obj listing (opGet obj maxSize mode seeContent seeExist c).cache := by
+  unfold opGet
+  cases hc : (if seeContent = true then c.content else none) with
+  | some b =>
+    have hb : c.content = some b := by
+      cases seeContent <;> simp_all
+    have := h.content b hb
+    subst this
+    exact ⟨rfl, h⟩
+  | none =>
+    simp only
+    cases obj with
+    | none =>
+      -- absent object: a cached "exists" entry can only say false
+      have hstore : OpsHonest none listing { c with exist := some false } :=
+        ⟨h.content, by intro e he; simp at he; simp [← he], h.attrs, h.iter⟩
+      cases he : (if seeExist = true then c.exist else none) with
+      | none => exact ⟨rfl, hstore⟩
+      | some e =>
+        cases e with
+        | false => exact ⟨rfl, h⟩
+        | true => exact ⟨rfl, hstore⟩
+    | some b =>
+      have hstore : OpsHonest (some b) listing
+          (if mode = ReadMode.full ∧ b.length ≤ maxSize then
+            { content := some b, exist := some true, attrs := c.attrs, iter := c.iter }
+           else { content := c.content, exist := some true, attrs := c.attrs, iter := c.iter }) := by
+        by_cases hcond : mode = ReadMode.full ∧ b.length ≤ maxSize
+        · simp only [hcond, and_self, if_true]
+          exact ⟨by intro b' hb'; simp at hb'; simp [hb'], by intro e he; simp at he; simp [← he],
+            h.attrs, h.iter⟩
+        · simp only [hcond, if_false]
+          exact ⟨h.content, by intro e he; simp at he; simp [← he], h.attrs, h.iter⟩
+      cases he : (if seeExist = true then c.exist else none) with
+      | none => exact ⟨rfl, hstore⟩
+      | some e =>
+        have heb : c.exist = some e := by cases seeExist <;> simp_all
+        have hev := h.exist e heb
+        cases e with
+        | false => simp at hev
+        | true => exact ⟨rfl, hstore⟩
+
+/-- the content of an object enters the cache only by a complete read of an object that fits -/
+theorem C14_get_full_only (obj : Option Bytes) (maxSize : Nat) (mode : ReadMode)
+    (seeContent seeExist : Bool) (c : OpsCache) (b : Bytes)
+    (h : (opGet obj maxSize mode seeContent seeExist c).cache.content = some b) :
+    c.content = some b ∨ (mode = .full ∧ b.length ≤ maxSize ∧ obj = some b) := by
+  unfold opGet at h
+  split at h
+  · exact Or.inl h
+  · split at h
+    · exact Or.inl h
+    · cases obj with
+      | none => exact Or.inl h
+      | some b' =>
+        simp only at h
+        split at h
+        · rename_i hcond
+          simp only [Option.some.injEq] at h
+          subst h
+          exact Or.inr ⟨hcond.1, hcond.2, rfl⟩
+        · exact Or.inl h
+
+theorem C14_exists (obj : Option Bytes) (listing : List Nat) (seeExist : Bool) (c : OpsCache)
+    (h : OpsHonest obj listing c) :
+    (opExists obj seeExist c).ans = .bool obj.isSome ∧ OpsHonest obj listing (opExists obj seeExist c).cache := by
+  unfold opExists
+  cases he : (if seeExist = true then c.exist else none) with
+  | some e =>
+    have heb : c.exist = some e := by cases seeExist <;> simp_all
+    have := h.exist e heb
+    subst this
+    exact ⟨rfl, h⟩
+  | none =>
+    exact ⟨rfl, ⟨h.content, by intro e he'; simp at he'; exact he'.symm, h.attrs, h.iter⟩⟩
+
+theorem C14_attributes (obj : Option Bytes) (listing : List Nat) (seeAttrs : Bool) (c : OpsCache)
+    (h : OpsHonest obj listing c) :
+    (opAttributes obj seeAttrs c).ans = bucketAttributes obj ∧
+    OpsHonest obj listing (opAttributes obj seeAttrs c).cache := by
+  unfold opAttributes
+  cases ha : (if seeAttrs = true then c.attrs else none) with
+  | some n =>
+    have hab : c.attrs = some n := by cases seeAttrs <;> simp_all
+    obtain ⟨b, hb, hn⟩ := h.attrs n hab
+    subst hb; subst hn
+    exact ⟨rfl, h⟩
+  | none =>
+    cases obj with
+    | none => exact ⟨rfl, h⟩
+    | some b =>
+      exact ⟨rfl, ⟨h.content, h.exist, by intro n hn; simp at hn; exact ⟨b, rfl, hn.symm⟩, h.iter⟩⟩
+
+theorem C14_iter (obj : Option Bytes) (listing : List Nat) (seeIter : Bool) (c : OpsCache)
+    (h : OpsHonest obj listing c) :
+    (opIter listing seeIter c).ans = .names listing ∧ OpsHonest obj listing (opIter listing seeIter c).cache := by
+  unfold opIter
+  cases hi : (if seeIter = true then c.iter else none) with
+  | some l =>
+    have hib : c.iter = some l := by cases seeIter <;> simp_all
+    have := h.iter l hib
+    subst this
+    exact ⟨rfl, h⟩
+  | none =>
+    exact ⟨rfl, ⟨h.content, h.exist, h.attrs, by intro l hl; simp at hl; exact hl.symm⟩⟩
 
 /-! ### regenerated facts -/
 
